@@ -319,6 +319,9 @@ def call_marker(it, path, pos, kw):
     if path.startswith("np."):
         name = path[3:]
         return call_np(it, name, pos, kw)
+    if path.startswith("time."):
+        ctx.dropped.add("time.*: the clock is an unconstrained real")
+        return T.fresh_real("clock")
     if path.startswith("warnings.") or path.startswith("logging."):
         ctx.dropped.add("warnings/logging calls: no-op")
         return None
